@@ -67,7 +67,7 @@ func main() {
 		"each case = one pool layer (prefetch landmark / no-prefetch landmark / none) x one configuration (store, registry chunk size, prefetch chunk size, prefetch size, async threshold, SyncAdd, LRU) x one scenario (clean / fault / stall / bgfetch, 1-4 concurrent callers, prioritized bursts); "+
 			"non-trivial = at least one strong clause was exercised with something at stake: A with >=1 non-empty prioritized file after a prefetch that fetched something, B on a no-prefetch layer, C with a prefetch size > 0, "+
 			"D reading >=1 non-empty file offline after a background fetch that fetched something, E2 with a Waiter returning while the stall was held; distinct by layer + configuration + scenario",
-		25, 200, body)
+		25, 400, body)
 }
 
 func body(r *vf.Run) {
@@ -127,9 +127,9 @@ func top(r *vf.Run) {
 			bs = append(bs, batch{stage, race, f, t})
 		}
 	}
-	add("l2", false, r.N(60, 600), r.N(30, 150))
-	add("l2", true, r.N(24, 200), r.N(12, 100))
-	add("l3", false, r.N(4, 30), r.N(4, 30))
+	add("l2", false, r.N(60, 1400), r.N(30, 200))
+	add("l2", true, r.N(24, 400), r.N(12, 100))
+	add("l3", false, r.N(4, 60), r.N(4, 30))
 	par := 3
 	if r.Thorough() {
 		par = 4
